@@ -415,6 +415,8 @@ func (r *Reliable) receive(pkt *frame) error {
 		case finWait1:
 			r.tubeState = closing
 			r.log.Debug("got FIN packet. going from finWait1 to closing")
+			// simultaneous close: same wait as lastAck
+			r.startLastAckTimer()
 		case finWait2:
 			r.log.Debug("got FIN packet. going from finWait2 to closed")
 			r.sender.sendEmptyPacket()
@@ -437,10 +439,22 @@ func (r *Reliable) receive(pkt *frame) error {
 // +checklocks:r.l
 func (r *Reliable) enterLastAckState() {
 	r.tubeState = lastAck
+	r.startLastAckTimer()
+}
+
+// startLastAckTimer bounds the wait for the acknowledgement of our FIN once
+// the peer's FIN has been received. The peer closes as soon as it has both our
+// FIN and the acknowledgement of its own, and then no longer answers
+// retransmissions, so the acknowledgement we wait for may never come.
+// +checklocks:r.l
+func (r *Reliable) startLastAckTimer() {
+	if r.lastAckTimer != nil {
+		return
+	}
 	r.lastAckTimer = time.AfterFunc(4*r.sender.RTT, func() {
 		r.l.Lock()
 		defer r.l.Unlock()
-		r.log.Warn("timer expired without getting ACK of FIN. going from lastAck to closed")
+		r.log.Warn("timer expired without getting ACK of FIN. going to closed")
 		r.enterClosedState()
 	})
 }
